@@ -11,8 +11,9 @@
    ELC e            every save e writes such a record;
    dk_ok s s'       the call from s to s' appended events l (CrashFault.ext), and if
                     every cached object and stored record of s satisfies KC under
-                    its key (CrashFault2.J) and l contains no deletion, then every
-                    event of l satisfies ELC and J KC holds of s' again.
+                    its key (CrashFault2.J) then every event of l BEFORE ITS FIRST
+                    DELETION (ndp l) satisfies ELC, and if l contains no deletion
+                    J KC holds of s' again.
 
    The safe-save lemmas of CrashFault2/4.v do the work inside cache.Get, cache.Set
    and LogOut(userID); RegenerateID is taken apart along CrashFault2.regenerate_spec.
@@ -25,6 +26,33 @@ From Sessions Require Proofs.CrashFault Proofs.CrashFault2 Proofs.CrashFault3 Pr
 From Coq Require Import Lia.
 
 Definition no_del (l : list ev) : Prop := Forall (fun e => CrashFault.is_delete e = false) l.
+
+(* the events of a log before its first deletion *)
+Fixpoint ndp (l : list ev) : list ev :=
+  match l with
+  | [] => []
+  | e :: t => if CrashFault.is_delete e then [] else e :: ndp t
+  end.
+
+Lemma ndp_nodel l : no_del l -> ndp l = l.
+Proof. induction 1 as [|e l He _ IH]; [reflexivity|]. cbn [ndp]. rewrite He, IH. reflexivity. Qed.
+
+Lemma ndp_Forall (P : ev -> Prop) l : Forall P l -> Forall P (ndp l).
+Proof. induction 1 as [|e l He _ IH]; [constructor|]. cbn [ndp]. destruct (CrashFault.is_delete e); [constructor | constructor; assumption]. Qed.
+
+Lemma ndp_app_Forall (P : ev -> Prop) a b : Forall P (ndp a) -> (no_del a -> Forall P (ndp b)) -> Forall P (ndp (a ++ b)).
+Proof.
+  induction a as [|e a IH]; intros Ha Hb; cbn [app]; [apply Hb; constructor|]. cbn [ndp] in *.
+  destruct (CrashFault.is_delete e) eqn:He; [constructor|]. inversion Ha; subst. constructor; [assumption|].
+  apply IH; [assumption|]. intro Hn. apply Hb. constructor; assumption.
+Qed.
+
+(* a deletion-free prefix of a log lies inside ndp *)
+Lemma ndp_prefix_In a b e : no_del a -> In e a -> In e (ndp (a ++ b)).
+Proof.
+  induction 1 as [|x a Hx _ IH]; intro Hin; [contradiction|]. cbn [app ndp]. rewrite Hx.
+  destruct Hin as [->|Hin]; [left; reflexivity | right; apply IH; exact Hin].
+Qed.
 
 Section DK.
   Variable S : key -> Prop.
@@ -40,7 +68,7 @@ Section DK.
   Definition ELC (e : ev) : Prop := match e with EvSave k r _ => KC k r | _ => True end.
 
   Definition dk_ok (s s' : st) : Prop :=
-    exists l, ext s s' l /\ (J KC s -> no_del l -> Forall ELC l /\ J KC s').
+    exists l, ext s s' l /\ (J KC s -> Forall ELC (ndp l) /\ (no_del l -> J KC s')).
 
   Lemma KC_same k r r' : r_ref r' = r_ref r -> dat r' = dat r -> KC k r -> KC k r'.
   Proof. intros E1 E2 H Hs Hr. rewrite E2. apply H; [exact Hs | rewrite <- E1; exact Hr]. Qed.
@@ -69,7 +97,7 @@ Section DK.
   (* ------------------------------------------------ refl, trans, patterns *)
 
   Lemma dk_refl s : dk_ok s s.
-  Proof. exists []. split; [apply CrashFault.ext_refl | intros H _; split; [constructor | exact H]]. Qed.
+  Proof. exists []. split; [apply CrashFault.ext_refl | intros H; split; [constructor | intros _; exact H]]. Qed.
 
   Lemma no_del_app a b : no_del (a ++ b) <-> no_del a /\ no_del b.
   Proof. unfold no_del. apply Forall_app. Qed.
@@ -77,39 +105,41 @@ Section DK.
   Lemma dk_trans s1 s2 s3 : dk_ok s1 s2 -> dk_ok s2 s3 -> dk_ok s1 s3.
   Proof.
     intros (l1 & X1 & H1) (l2 & X2 & H2). exists (l1 ++ l2). split; [eapply CrashFault.ext_trans; eassumption|].
-    intros HJ Hnd. apply no_del_app in Hnd. destruct Hnd as [N1 N2].
-    destruct (H1 HJ N1) as [A1 J2]. destruct (H2 J2 N2) as [A2 J3].
-    split; [apply Forall_app; split; assumption | exact J3].
+    intros HJ. destruct (H1 HJ) as [A1 J2]. split.
+    - apply ndp_app_Forall; [exact A1|]. intro N1. exact (proj1 (H2 (J2 N1))).
+    - intro Hnd. apply no_del_app in Hnd. destruct Hnd as [N1 N2]. exact (proj2 (H2 (J2 N1)) N2).
   Qed.
 
   (* the log is determined by the two states: an unconditional ext and a conditional
      analysis may be proved separately *)
   Lemma dk_of_safe s s' :
     (exists l0, ext s s' l0) ->
-    (J KC s -> exists l, ext s s' l /\ (no_del l -> Forall ELC l /\ J KC s')) -> dk_ok s s'.
+    (J KC s -> exists l, ext s s' l /\ Forall ELC l /\ J KC s') -> dk_ok s s'.
   Proof.
-    intros (l0 & X0) H. exists l0. split; [exact X0|]. intros HJ Hnd.
-    destruct (H HJ) as (l & X & Hl). assert (l = l0) by (eapply CrashFault8.appended_unique_ext; eassumption). subst l.
-    exact (Hl Hnd).
+    intros (l0 & X0) H. exists l0. split; [exact X0|]. intros HJ.
+    destruct (H HJ) as (l & X & Hl & HJ'). assert (l = l0) by (eapply CrashFault8.appended_unique_ext; eassumption). subst l.
+    split; [apply ndp_Forall; exact Hl | intros _; exact HJ'].
   Qed.
 
   (* a call that deletes, followed by anything *)
   Lemma dk_after_delete s1 s2 s3 :
-    (exists l1, ext s1 s2 l1 /\ ~ no_del l1) -> (exists l2, ext s2 s3 l2) -> dk_ok s1 s3.
+    (exists l1, ext s1 s2 l1 /\ ~ no_del l1 /\ ndp l1 = []) -> (exists l2, ext s2 s3 l2) -> dk_ok s1 s3.
   Proof.
-    intros (l1 & X1 & Hn) (l2 & X2). exists (l1 ++ l2). split; [eapply CrashFault.ext_trans; eassumption|].
-    intros _ Hnd. apply no_del_app in Hnd. exfalso. apply Hn. apply Hnd.
+    intros (l1 & X1 & Hn & He) (l2 & X2). exists (l1 ++ l2). split; [eapply CrashFault.ext_trans; eassumption|].
+    intros _. split.
+    - apply ndp_app_Forall; [rewrite He; constructor | intro N1; contradiction].
+    - intro Hnd. apply no_del_app in Hnd. exfalso. apply Hn. apply Hnd.
   Qed.
 
   Lemma dk_same s s' : ext s s' [] -> heap s' = heap s -> cache s' = cache s -> store s' = store s -> dk_ok s s'.
   Proof.
-    intros X Hh Hc Hs. exists []. split; [exact X|]. intros HJ _. split; [constructor|].
+    intros X Hh Hc Hs. exists []. split; [exact X|]. intros HJ. split; [constructor|]. intros _.
     eapply CrashFault2.J_same; eassumption.
   Qed.
 
   Lemma dk_hupd s o f : (forall k r, KC k r -> KC k (f r)) -> dk_ok s (hupd s o f).
   Proof.
-    intro Hf. exists []. split; [apply CrashFault.ext_hupd|]. intros HJ _. split; [constructor|].
+    intro Hf. exists []. split; [apply CrashFault.ext_hupd|]. intros HJ. split; [constructor|]. intros _.
     destruct (hget s o) as [ob|] eqn:Ho.
     - rewrite (CrashFault.hupd_spec _ _ _ _ Ho). eapply CrashFault2.J_hput; [exact HJ | exact Ho|]. intros k Hk. cbn [o_rec]. apply Hf. exact Hk.
     - rewrite (CrashFault.hupd_none _ _ _ Ho). exact HJ.
@@ -121,7 +151,7 @@ Section DK.
   Proof.
     intro E. apply dk_of_safe; [exact (CrashFault13.cache_get_ext _ _ _ _ E)|]. intro HJ.
     destruct (CrashFault2.cache_get_safe KC KC_codec s k s' r HJ E) as (l & X & HQ & HJ' & _).
-    exists l. split; [exact X|]. intros _. split; [apply QKs_ELC; exact HQ | exact HJ'].
+    exists l. split; [exact X|]. split; [apply QKs_ELC; exact HQ | exact HJ'].
   Qed.
 
   Lemma dk_cache_set s o ob s' ok : hget s o = Some ob -> KC (o_id ob) (o_rec ob) -> cache_set s o = (s', ok) -> dk_ok s s'.
@@ -129,7 +159,7 @@ Section DK.
     intros Ho HK E. apply dk_of_safe; [exact (proj1 (CrashFault13.keeps_cache_set _ _ _ _ E))|]. intro HJ.
     destruct (CrashFault2.cache_set_safe KC KC_codec KC_access s o ob s' ok HJ Ho E) as (l & X & HQ & _ & _ & _ & _ & _ & _ & HJ' & _).
     destruct (HJ' HK) as [J' HQp].
-    eexists. split; [exact X|]. intros _. split; [|exact J'].
+    eexists. split; [exact X|]. split; [|exact J'].
     apply Forall_app. split; [apply QKs_ELC; exact HQ | constructor; [apply QK_ELC; exact HQp | constructor]].
   Qed.
 
@@ -138,8 +168,8 @@ Section DK.
     intros Ho HK. unfold save_direct. rewrite Ho.
     destruct (p_save s (o_id ob) (o_rec ob)) as [s1 ok] eqn:E. intro E'. injection E' as <- _.
     apply CrashFault.p_save_spec in E. destruct E as ((Hh & Hc & _) & X & _ & Hst & _).
-    eexists. split; [exact X|]. intros (Hcv & HcK & HsK) _. split; [constructor; [cbn [ELC]; apply KC_codec; exact HK | constructor]|].
-    split; [|split].
+    eexists. split; [exact X|]. intros (Hcv & HcK & HsK). split; [cbn [ndp CrashFault.is_delete]; constructor; [cbn [ELC]; apply KC_codec; exact HK | constructor]|].
+    intros _. split; [|split].
     - intros k' o' Hin. rewrite Hh. rewrite Hc in Hin. exact (Hcv k' o' Hin).
     - intros k' o' ob' Hin Ho'. rewrite Hc in Hin. unfold hget in Ho'. rewrite Hh in Ho'. exact (HcK k' o' ob' Hin Ho').
     - intros k' r' Hl. rewrite Hst in Hl. destruct ok; [|exact (HsK k' r' Hl)].
@@ -148,17 +178,17 @@ Section DK.
       + rewrite lookup_upsert_other in Hl by exact Hne. exact (HsK k' r' Hl).
   Qed.
 
-  Lemma dk_cache_delete_del s k s' ok : cache_delete s k = (s', ok) -> exists l, ext s s' l /\ ~ no_del l.
+  Lemma dk_cache_delete_del s k s' ok : cache_delete s k = (s', ok) -> exists l, ext s s' l /\ ~ no_del l /\ ndp l = [].
   Proof.
     unfold cache_delete. intro E. apply CrashFault.p_delete_spec in E. destruct E as (_ & X & _).
     exists ([] ++ [EvDelete k ok]). split; [eapply CrashFault.ext_trans; [apply CrashFault.ext_set_cache | exact X]|].
-    intro H. inversion H as [|? ? He _]. discriminate He.
+    split; [intro H; inversion H as [|? ? He _]; discriminate He | reflexivity].
   Qed.
 
   Lemma dk_cache_delete s k s' ok : cache_delete s k = (s', ok) -> dk_ok s s'.
   Proof.
-    intro E. destruct (dk_cache_delete_del _ _ _ _ E) as (l & X & Hn). exists l. split; [exact X|].
-    intros _ Hnd. contradiction.
+    intro E. destruct (dk_cache_delete_del _ _ _ _ E) as (l & X & Hn & He). exists l. split; [exact X|].
+    intros _. split; [rewrite He; constructor | intro Hnd; contradiction].
   Qed.
 
   (* RegenerateID on an object whose data is allowed *)
@@ -200,9 +230,9 @@ Section DK.
         split; [apply QKs_ELC; exact HQ2 | constructor; [apply QK_ELC; exact HQp2 | constructor]]. }
       destruct b2; destruct HS as (-> & _ & _).
       + eexists. split; [eapply CrashFault3.ext_nil_r; [exact X5 | apply CrashFault.ext_set_pending]|].
-        intros _. split; [exact E5|]. eapply CrashFault2.J_same; [..|exact J4]; reflexivity.
-      + eexists. split; [exact X5|]. intros _. split; [exact E5 | exact J4].
-    - destruct HS as (-> & _ & _). eexists. split; [exact X2|]. intros _. split; [exact E2 | exact J2].
+        split; [exact E5|]. eapply CrashFault2.J_same; [..|exact J4]; reflexivity.
+      + eexists. split; [exact X5|]. split; [exact E5 | exact J4].
+    - destruct HS as (-> & _ & _). eexists. split; [exact X2|]. split; [exact E2 | exact J2].
   Qed.
 
   Lemma dk_follow : forall fuel s o lk, dk_ok s (fst (follow fuel s o lk)).
@@ -218,7 +248,7 @@ Section DK.
   Proof.
     intros Hc E. apply dk_of_safe; [exact (proj1 (CrashFault13.keeps_logout_user _ _ _ _ E))|]. intro HJ.
     destruct (CrashFault4.logout_user_safe KC KC_codec KC_access KC_user s u s' r HJ Hc E) as (l & X & HQ & HJ' & _).
-    exists l. split; [exact X|]. intros _. split; [apply QKs_ELC; exact HQ | exact HJ'].
+    exists l. split; [exact X|]. split; [apply QKs_ELC; exact HQ | exact HJ'].
   Qed.
 
   Lemma dk_fire : forall l s s' rest, fire s l = (s', rest) -> dk_ok s s'.
